@@ -86,7 +86,13 @@ fn adsr_time(r: &mut Rd, fs: f32, finite_only: bool) -> f32 {
     match r.u8() % 8 {
         0 | 1 | 2 => (0.001f64.ln() + r.unit() * (20.0f64 / 0.001).ln()).exp() as f32,
         3 | 4 => ((0.2 + 3.0 * r.unit()) / fs as f64) as f32,
-        5 => (0.001 + r.unit() * 5.0 / fs as f64) as f32,
+        5 => {
+            if r.bool() {
+                (0.001 + r.unit() * 5.0 / fs as f64) as f32
+            } else {
+                [0.25f32, 0.5, 1.0, 2.0, 3.0, 4.0, 8.0, 16.0][(r.u8() % 8) as usize] / fs
+            }
+        }
         6 => {
             let w = WILD[(r.u8() % 16) as usize];
             if finite_only && !w.is_finite() {
